@@ -93,14 +93,17 @@ class C14(Base):
         n = rng.randint(1, maxlen)
         ops = []
         live = []
+        from_get = []
         nh = 0
         for _ in range(n):
             r = rng.random()
             if nh == 0 or r < p_lang:
                 if conc or rng.random() < 0.15:
                     ops.append("new:" + rng.choice(langs))
+                    from_get.append(False)
                 else:
                     ops.append("lang:" + rng.choice(langs))
+                    from_get.append(True)
                 live.append(nh)
                 nh += 1
             elif r < p_lang + p_drop:
@@ -113,6 +116,10 @@ class C14(Base):
                 ty, arg = rng.choice(pool)
                 # x = 666: the callback panics (single-thread memoizer only); the key must stay cached
                 x = 666 if (not conc and rng.random() < 0.12) else rng.randrange(100)
+                # x = 777: the callback calls get_for_lang for its own language while the lookup is active (handles
+                # that came from get_for_lang only): the memoizer it runs on must be handed out
+                if not conc and h < len(from_get) and from_get[h] and rng.random() < 0.15:
+                    x = 777
                 ops.append("get:%d:%s:%s:%d:%s" % (h, ty, arg, x, rng.choice("dk")))
         return ("cseq " if conc else "seq ") + ";".join(ops)
 
@@ -296,6 +303,8 @@ class C14(Base):
             p = op.split(":")
             where = "op %d (%s): " % (idx, op)
             if o == "bad-op":
+                if p[0] == "get" and len(p) > 4 and p[4] == "777":
+                    continue      # the re-entrant callback is only defined on handles that came from get_for_lang
                 return where + "harness rejected the op"
             if p[0] in ("lang", "new"):
                 exp_h = "h%d=m" % len(handles)
@@ -350,7 +359,7 @@ class C14(Base):
                 if key in m["cache"]:
                     if evs:
                         return where + "key is cached in m%d but construct ran again: %s" % (c, evs)
-                    exp = "ok:CBPANIC" if x == "666" else "ok:%d/%s/%s" % (m["cache"][key], kname, x)
+                    exp = "ok:CBPANIC" if x == "666" else "ok:%d/%s/%s%s" % (m["cache"][key], kname, x, "+same" if x == "777" else "")
                     if res != exp:
                         return where + "callback result: expected %s got %s" % (exp, res)
                     continue
@@ -377,7 +386,7 @@ class C14(Base):
                         return where + "serial %d handed out twice" % s
                     used_serials.add(s)
                     m["cache"][key] = s
-                    exp = "ok:CBPANIC" if x == "666" else "ok:%d/%s/%s" % (s, kname, x)
+                    exp = "ok:CBPANIC" if x == "666" else "ok:%d/%s/%s%s" % (s, kname, x, "+same" if x == "777" else "")
                     if res != exp:
                         return where + "callback result: expected %s got %s" % (exp, res)
             else:
